@@ -101,6 +101,9 @@ def run_text(res: Res, text: str, family: str) -> None:
         verdict = "error:" + type(e).__name__
     res.case(text, steps > 0)
     res.count("family[" + family + "]")
+    if verdict == "budget" and not _for_state["installed"] and ".for" in text:
+        res.count("unjudged_for_tap_unavailable")
+        return
     if verdict == "budget":
         mech = "unterminated-block-comment" if "/*" in text and "*/" not in text.split("/*", 1)[1] else "step-budget-exhausted"
         res.violate(mech, f"{t.budget} interpreter steps were not enough for a {len(text)}-character input ({family}): {text[:80]!r}", {"text": text, "family": family})
@@ -155,7 +158,7 @@ def recursion_text(rng: random.Random) -> str:
 def run_shard(shard: dict) -> Res:
     res = Res()
     if not install_for_tap():
-        res.undecided("T-for could not attach to codegen.generators['for']")
+        res.count("tap_for_unavailable")     # inputs containing .for are then unjudged when they exceed the budget
     with Scratch({}):
         if shard["kind"] == "enum":
             i = 0
